@@ -63,10 +63,22 @@ type vHist struct {
 	allRoots map[int64]*rNode // reference roots of every version ever committed (incl. deleted)
 	reopened bool
 	f5       bool // inside the region of known finding F5
+	f24      bool // inside the region of known finding F24
 }
 
 // lbl returns the label for version-bookkeeping / post-reopen assertions (finding F2 region).
+// l24 labels the reopen assertions inside the region of finding F24.
+func (h *vHist) l24(label string) string {
+	if h.f24 {
+		return "F24:new-format-copy-of-a-legacy-root-survives-the-rollback-and-is-taken-for-the-latest-version"
+	}
+	return label
+}
+
 func (h *vHist) lbl(label string) string {
+	if h.f24 {
+		return "F24:new-format-copy-of-a-legacy-root-survives-the-rollback-and-is-taken-for-the-latest-version"
+	}
 	if h.f2 {
 		return "F2:deleted-version-reappears-after-reopen-because-its-root-node-is-still-live"
 	}
@@ -329,8 +341,8 @@ func (h *vHist) doReopen() {
 		h.f2 = true
 	}
 	v, err := h.tree.Load()
-	vAssert(err == nil, "reopen-load-err")
-	vAssert(v == h.latest, "reopen-load-version")
+	vAssert(err == nil, h.l24("reopen-load-err"))
+	vAssert(v == h.latest, h.l24("reopen-load-version"))
 	h.resetWorkToLatest()
 }
 
@@ -338,7 +350,7 @@ func (h *vHist) doReopen() {
 func (h *vHist) checkVersions(tag string) {
 	lv, err := h.tree.GetLatestVersion()
 	vAssert(err == nil, tag+":latest-err")
-	vAssert(lv == h.latest, tag+":latest-version")
+	vAssert(lv == h.latest, h.l24(tag+":latest-version"))
 	av := h.tree.AvailableVersions()
 	want := 0
 	if h.latest > 0 {
